@@ -18,11 +18,15 @@ MANIFEST = dict(
          'classes derived from ipr::Node found in the compiler\'s class dump) the stamped category is the code of its own interface, '
          'accept enters exactly one hook, its own, the chain of default hooks is the one the model derives from the interface '
          'hierarchy (nearest abstract super-category, through Classic exactly for classic expressions), and util::view<K> answers '
-         'the node iff K is its category, for all K x class pairs (decide +kernel over tables regenerated from the code on every '
-         'run); plus general theorems: view is exact for every hierarchy, the nearest-super-category function is sound, unique and '
+         'the node iff K is its category, for all K x class pairs, and every hook entered -- the leaf hook by accept and each hook of the '
+         'default chain -- RECEIVES the visited node itself (same most-derived object), on first declarations and on redeclarations (nodes '
+         'whose master() is another node; every declaration kind that can be declared twice is observed as one) (decide +kernel over tables '
+         'regenerated from the code on every run); plus general theorems: view is exact for every hierarchy, the nearest-super-category function is sound, unique and '
          'total on chains.',
     note='Lean kernel; axioms propext/Classical.choice/Quot.sound; tables produced by harness/c06probe.cxx (ASan/UBSan), g++ -E and '
-         'g++ -fdump-lang-class, vlib/c06.py; one node per class (operands are irrelevant to the observed behaviour).',
+         'g++ -fdump-lang-class, vlib/c06.py; one node per class (operands are irrelevant to the observed behaviour), plus a second and third '
+         'declaration of the same name and type for the eight redeclarable declaration kinds; which declaration kinds cannot be redeclared '
+         '(Parameter, Enumerator, Base_type, EH_parameter) is documented, not derived.',
     technique='Lean 4 theorems by kernel evaluation over tables regenerated from the implementation + general lemmas about the model',
     ref='§4 C06')
 
@@ -144,11 +148,16 @@ def parse_probe(out):
             kv = dict(x.split('=', 1) for x in f[2:])
             nodes.append({'label': f[1], 'cls': kv['cls'], 'sym': kv['sym'], 'cat': int(kv['cat']), 'dyn': ints(kv['dyn']),
                           'absdyn': ints(kv['absdyn']), 'fired': ints(kv['fired']), 'chain': ints(kv['chain']),
-                          'view1': ints(kv['view1']), 'view2': ints(kv['view2'])})
+                          'view1': ints(kv['view1']), 'view2': ints(kv['view2']),
+                          'firedself': ints(kv.get('firedself', '-')), 'chainself': ints(kv.get('chainself', '-')),
+                          'remaster': kv.get('remaster', '-')})
     return cats, absanc, ifaces, noiface, nodes
 
 
-OBS_KEYS = ('cat', 'dyn', 'absdyn', 'fired', 'chain', 'view1', 'view2')
+OBS_KEYS = ('cat', 'dyn', 'absdyn', 'fired', 'chain', 'view1', 'view2', 'firedself', 'chainself')
+# Declaration kinds that cannot be declared twice (include/ipr/impl: "Parameters, base-subobjects and enumerations cannot be multiply
+# declared in a given region"; a handler has one exception parameter): their nodes are always their own master.
+NOT_REDECLARABLE = {'Parameter', 'Enumerator', 'Base_type', 'EH_parameter'}
 
 
 class Observation:
@@ -163,6 +172,7 @@ class Observation:
         self.sviews = []              # view<K> through the static type a factory hands out disagreeing with view<K> through const Node&
         self.early = []               # (constant, category stamp during static initialisation of a client TU, stamp in main)
         self.rows = {}                # sym -> row (first variant), with labels collected
+        self.instances = []           # every live node observed (one per label and variant), for the statement-level oracle
         self.variants = variants
         first = True
         for v in variants:
@@ -184,13 +194,17 @@ class Observation:
             elif (cats, absanc, ifaces, noiface) != (self.cats, self.absanc, self.ifaces, self.noiface):
                 self.problems.append(('static-facts-vary', 'static facts differ between probe variants'))
             for n in nodes:
+                self.instances.append(n)
                 r = self.rows.get(n['sym'])
                 if r is None:
                     n['labels'] = [n['label']]
+                    n['redeclared'] = n['remaster'] == '1'
                     self.rows[n['sym']] = n
                 else:
                     if n['label'] not in r['labels']:
                         r['labels'].append(n['label'])
+                    if n['remaster'] == '1':
+                        r['redeclared'] = True
                     if any(n[k] != r[k] for k in OBS_KEYS):
                         self.problems.append(('instances-differ:' + n['cls'],
                                               'two live nodes of class %s behave differently: %s (%s) vs %s (%s)' % (
@@ -218,6 +232,12 @@ class Observation:
                     self.problems.append(('class-not-exercised:' + name,
                                           'implementation class %s (a concrete class derived from ipr::Node) has no live node in '
                                           'harness/c06probe.cxx: the theorems do not cover it' % name))
+            decl_idx = ABS.index('decl')
+            seen_redeclared = {c for n in self.instances if n['remaster'] == '1' for c in n['dyn']}
+            for n, i in sorted(self.ifaces.items()):
+                if decl_idx in i['bases'] and n not in NOT_REDECLARABLE and i['code'] not in seen_redeclared:
+                    self.problems.append(('redeclaration-not-exercised:' + n, 'no REDECLARATION (a node whose master() is another node) of '
+                                          'declaration kind ipr::%s was observed: what its hooks receive is not covered' % n))
             covered = {c for r in self.rows.values() for c in r['dyn']}
             for n, i in sorted(self.ifaces.items()):
                 if i['code'] not in covered:
@@ -265,6 +285,12 @@ class Observation:
             if exp is not None and r['chain'] != exp:
                 bad.append('with only Classic and the sinks overridden the hooks entered are %s; the interface hierarchy prescribes %s' % (
                     hn(r['chain']), hn(exp)))
+            for what, hooks, selfs in (('accept', r['fired'], r['firedself']), ('the default hooks', r['chain'], r['chainself'])):
+                if len(selfs) != len(hooks) or not all(selfs):
+                    others = [self.hook_name(h) for h, ok in zip(hooks, selfs + [0] * len(hooks)) if not ok]
+                    bad.append('%s handed ANOTHER OBJECT than the visited node to the hook(s) %s%s' % (
+                        what, '[' + ', '.join(others) + ']',
+                        ' (the node is a redeclaration: its master() is another node)' if r.get('remaster') == '1' else ''))
             if r['view1'] != [own] or r['view2']:
                 bad.append('util::view<K> answers the node for K in %s%s; it must do so for K = %s only' % (
                     hn(r['view1']), (' and another node for K in ' + hn(r['view2'])) if r['view2'] else '', self.code_name.get(own)))
@@ -318,6 +344,23 @@ def lean_table(o):
         items.append('  { cls := %s, category := %d, dyn := %s, absDyn := %s, fired := %s, chain := %s, viewSelf := %s, viewOther := %s }' % (
             lstr(r['cls']), r['cat'], r['dyn'], labs(r['absdyn']), lhooks(r['fired']), lhooks(r['chain']), r['view1'], r['view2']))
     L.append(',\n'.join(items) + ']')
+    # identity of what every hook received, per row: conjunction over ALL live nodes of the class (first declarations and redeclarations)
+    def conj(sym, key, hooks):
+        out = [1] * len(o.rows[sym][hooks])
+        for n in o.instances:
+            if n['sym'] == sym:
+                v = n[key]
+                out = [a & b for a, b in zip(out, v)] if len(v) == len(out) else [0] * len(out)
+        return '[' + ', '.join('true' if x else 'false' for x in out) + ']'
+    L += ['', '/-- For every row (same order as `rows`): for each hook of `fired`, then for each hook of `chain`, whether the object the hook',
+          '    RECEIVED was the visited node itself (same most-derived object) -- on every live node of the class that was observed,',
+          '    redeclarations (nodes whose `master()` is another node) included. -/',
+          'def handed : List (List Bool × List Bool) := [' + ', '.join('(%s, %s)' % (conj(sym, 'firedself', 'fired'), conj(sym, 'chainself', 'chain')) for sym in order) + ']', '',
+          '/-- Category codes of the declaration kinds that were observed on a REDECLARATION as well (a node whose `master()` is another node). -/',
+          'def redeclared : List Nat := ' + str(sorted({c for n in o.instances if n['remaster'] == '1' for c in n['dyn']})), '',
+          '/-- Category codes of the declaration kinds that cannot be declared twice in a region (parameters, enumerators, base-class',
+          '    subobjects, exception parameters: include/ipr/impl, comment on `singleton_overload`); documented, not derived. -/',
+          'def notRedeclarable : List Nat := ' + str(sorted(o.ifaces[n]['code'] for n in NOT_REDECLARABLE if n in o.ifaces))]
     L += ['', '/-- The observed classes (same order as `rows`), identified by the bytes of their mangled type name read as one',
           '    big-endian number (an exact encoding, compared natively by the kernel; comparing `String`s there is slow). -/',
           'def rowKeys : List Nat := [' + ', '.join('%d' % symkey(s) for s in order) + ']', '',
@@ -350,11 +393,15 @@ def run(tier):
     ok, info, detail = C.prove(res, PID, regen=regen)
     o = box['o']
 
-    failing = []
-    for sym in sorted(o.rows, key=lambda s: o.rows[s]['cls']):
-        bad = o.check_row(o.rows[sym])
+    failing, failed_cls = [], set()
+    for n in sorted(o.instances, key=lambda n: (n['cls'], n['label'])):          # every live node, not only the first of its class
+        if n['cls'] in failed_cls:
+            continue
+        bad = o.check_row(n)
         if bad:
-            failing.append((o.rows[sym], bad))
+            n.setdefault('labels', [n['label']])
+            failing.append((n, bad))
+            failed_cls.add(n['cls'])
     for r, bad in failing[:MAX_REPORTED]:
         more = '' if len(failing) <= MAX_REPORTED else ' (%d classes fail in all; the first %d are reported)' % (len(failing), MAX_REPORTED)
         res.violation('class:' + r['cls'], 'implementation class %s (node built by %s): %s%s' % (r['cls'], r['labels'][0], '; '.join(bad), more),
@@ -394,6 +441,9 @@ def run(tier):
     res.cov['view_pairs_checked'] = n_if * len(o.rows)
     res.cov['probe_variants'] = variants
     res.cov['view_also_asked_through_the_static_type_of_every_factory_result'] = True
+    res.cov['hooks_whose_received_object_was_compared_with_the_visited_node'] = sum(len(n['firedself']) + len(n['chainself']) for n in o.instances)
+    res.cov['declaration_kinds_also_observed_as_a_redeclaration'] = sorted({o.code_name.get(c, '?') for n in o.instances if n['remaster'] == '1' for c in n['dyn']})
+    res.cov['declaration_kinds_documented_as_not_redeclarable'] = sorted(NOT_REDECLARABLE)
     res.cov['constants_read_during_static_initialisation'] = len(o.early)
     dist = {}
     for r in o.rows.values():
@@ -449,7 +499,10 @@ def replay(path):
         if r is None:
             print('class with symbol %s is no longer produced by the probe' % sym)
             continue
-        bad = o.check_row(r)
+        bad = []
+        for n in o.instances:                      # every live node of the class (first declarations and redeclarations alike)
+            if n['sym'] == sym:
+                bad += ['[node built by %s] %s' % (n['label'], b) for b in o.check_row(n)]
         print('class %s (built by %s)\n  category=%s dyn=%s\n  fired=%s\n  default chain=%s (model: %s)\n  view self=%s other=%s' % (
             r['cls'], ' | '.join(r['labels']), o.code_name.get(r['cat']), [o.code_name.get(c) for c in r['dyn']],
             [o.hook_name(h) for h in r['fired']], [o.hook_name(h) for h in r['chain']],
